@@ -94,6 +94,7 @@ struct Kernel {
 	std::string failed_alloc_site;
 	// random
 	uint64_t rnd_state = 0x9E3779B97F4A7C15ull;
+	size_t max_accounted = 0; // highest cjet_get_alloc_size() seen at any simulated call
 
 	// hooks
 	// called from epoll_wait when nothing is ready; return false => deliver SIGTERM
